@@ -154,9 +154,7 @@ let () =
         let fl = flags_ fl in
         let r = M.c19_generate f fl in
         let ok = M.c19_generate_ok f fl (obs_ o) in
-        let kfs = List.concat [
-          (if M.c19_kf_file_invalid f then [Atom "C19-1"] else []);
-          (if M.c19_kf_verbose_file_only f fl then [Atom "C19-6"] else [])] in
+        let kfs = [] in
         List [of_result f r; of_bool (M.c19_spec_invalid f fl); of_eff (M.c19_spec_eff f fl); of_bool ok; List kfs]
     | _ -> failwith "c19-generate: bad case");
   (* init: (fs iflags obs-of-impl after-doc-of-impl target-doc-reference-reading) -> (result target doc-after oracle (kf ...)) *)
